@@ -674,7 +674,7 @@ Proof. intros H Hd. apply mint_spec in H. destruct H as (_ & L). rewrite L, !del
 Lemma launch_spec st d st' :
   Inv st -> find_dapp (d_name d) (dapps st) = Some d -> d_status d = 0 -> launch v d st = Ok st' ->
   Inv st' /\ now st' = now st /\ (forall a, bal a UKEX (led st') = bal a UKEX (led st))
-  /\ (st' = st \/ (dapps st' = set_dapp (with_status d 3) (dapps st)
+  /\ (st' = st \/ (dapps st' = set_dapp (with_ptime (with_status d 3) (now st)) (dapps st)
                    /\ bonds st' = filter (fun e => negb (of_dapp (d_name d) e)) (bonds st))).
 Proof.
   intros I F S H. unfold launch in H. destruct (negb (d_lp_ok d)); [inversion H; subst; auto 6|].
@@ -731,6 +731,62 @@ Proof.
     + intros m u Hm. rewrite bond_amt_others. apply not_eq_sym, String.eqb_neq in Hm. now rewrite Hm.
 Qed.
 
+(* storing a record with the same name, total and LP denomination and a status other than Bootstrap *)
+Lemma relabel_inv st d d' l :
+  Inv st -> find_dapp (d_name d') (dapps st) = Some d -> d_total d' = d_total d -> d_lp d' = d_lp d -> d_status d' <> 0 ->
+  (forall a, bal a UKEX l = bal a UKEX (led st)) ->
+  Inv (mkState (now st) (set_dapp d' (dapps st)) (bonds st) l).
+Proof.
+  intros I F Ht Hl Hs L. destruct (i_names _ I _ d F) as (HnN & Htot & Hlp). constructor; simpl.
+  - apply uniq_set, (i_uniq _ I).
+  - intros m x F' Sx. rewrite find_set in F'. destruct (String.eqb (d_name d') m) eqn:E.
+    + inversion F'; subst. contradiction.
+    + now apply (i_sum _ I).
+  - rewrite sum_set by apply (i_uniq _ I). unfold total_of. rewrite F, L, Ht. pose proof (i_held _ I). lia.
+  - intros m x F' Sx. rewrite find_set in F'. destruct (String.eqb (d_name d') m) eqn:E.
+    + inversion F'; subst. contradiction.
+    + now apply (i_max _ I m).
+  - intros e He. destruct (i_bonds _ I e He) as (A & B & C & D). repeat split; auto. rewrite find_set.
+    destruct (String.eqb (d_name d') (fst (fst e))); [discriminate|exact D].
+  - intros m x F'. rewrite find_set in F'. destruct (String.eqb (d_name d') m) eqn:E.
+    + inversion F'; subst. apply String.eqb_eq in E. subst. rewrite Ht, Hl. auto.
+    + now apply (i_names _ I).
+  - rewrite find_set. destruct (String.eqb (d_name d') "") eqn:E; [|apply (i_empty _ I)].
+    apply String.eqb_eq in E. rewrite E, (i_empty _ I) in F. discriminate.
+Qed.
+
+Lemma active_step_spec st d s :
+  Inv st -> (d_status d = 1 -> find_dapp (d_name d) (dapps st) = Some d) -> active_step c d st = Ok s ->
+  Inv s /\ now s = now st
+  /\ (forall m, m <> d_name d -> find_dapp m (dapps s) = find_dapp m (dapps st))
+  /\ bonds s = bonds st /\ (forall a, bal a UKEX (led s) = bal a UKEX (led st)).
+Proof.
+  intros I F H. unfold active_step in H. destruct (d_status d =? 1) eqn:S; simpl in H; [|inversion H; subst; auto 6].
+  apply Z.eqb_eq in S. specialize (F S). destruct (i_names _ I _ d F) as (HnN & Htot & Hlp).
+  assert (Hs1 : d_status d <> 0) by lia.
+  set (pay := ((wrap64 (x_ptime (d_x d) + x_drip (d_x d)) <? now st) && (0 <? d_postmint d))%bool) in *.
+  assert (P : forall s1, (if pay then if d_premint d <? 0 then Panic "negative coin amount"
+                 else match send MOD (d_team d) (d_lp d) (d_premint d) (led st) with
+                      | Ok l => Ok (mkState (now st) (set_dapp d (dapps st)) (bonds st) l)
+                      | _ => Panic "postmint" end else Ok st) = Ok s1 ->
+              Inv s1 /\ now s1 = now st /\ (forall m, m <> d_name d -> find_dapp m (dapps s1) = find_dapp m (dapps st))
+              /\ bonds s1 = bonds st /\ (forall a, bal a UKEX (led s1) = bal a UKEX (led st))
+              /\ find_dapp (d_name d) (dapps s1) = Some d).
+  { intros s1 H1. destruct pay; [|inversion H1; subst; auto 7].
+    destruct (d_premint d <? 0); [discriminate|].
+    destruct (send MOD (d_team d) (d_lp d) (d_premint d) (led st)) as [l| |] eqn:E; inversion H1; subst; clear H1. simpl.
+    assert (L : forall a, bal a UKEX l = bal a UKEX (led st)) by (intros a; eapply send_other_den; eauto).
+    split; [apply (relabel_inv st d d l I F eq_refl eq_refl Hs1 L)|]. split; [reflexivity|]. split.
+    - intros m Hm. rewrite find_set. apply not_eq_sym, String.eqb_neq in Hm. now rewrite Hm.
+    - split; [reflexivity|]. split; [exact L|]. rewrite find_set, String.eqb_refl. reflexivity. }
+  match type of H with (do s1 <- ?X; _) = _ => destruct X as [s1| |] eqn:E1; [|discriminate|discriminate] end. cbn [bind] in H.
+  destruct (P s1 eq_refl) as (I1 & N1 & Fr1 & B1 & L1 & F1).
+  destruct (wrap64 (x_liq (d_x d) + c_liq_period c) <? now st); inversion H; subst; clear H; [|auto 6]. simpl.
+  split; [apply (relabel_inv s1 d (with_status d 3) (led s1) I1 F1 eq_refl eq_refl); [simpl; lia|auto]|].
+  split; [exact N1|]. split; [|auto].
+  intros m Hm. rewrite find_set. simpl. pose proof Hm as Hm'. apply not_eq_sym, String.eqb_neq in Hm'. rewrite Hm'. now apply Fr1.
+Qed.
+
 Lemma end_loop_inv ds : forall st st',
   Inv st -> NoDup (map d_name ds) -> (forall d, In d ds -> find_dapp (d_name d) (dapps st) = Some d) ->
   end_loop v c ds st = Ok st' -> Inv st' /\ now st' = now st.
@@ -738,12 +794,18 @@ Proof.
   induction ds as [|d r IH]; intros st st' I U Hf H; simpl in H; [inversion H; subst; auto|].
   inversion U; subst.
   destruct (if expired c (now st) d then finish v c d st else Ok st) as [s| |] eqn:E; [|discriminate|discriminate]. cbn [bind] in H.
-  destruct (expired c (now st) d) eqn:X.
-  - unfold expired in X. apply andb_true_iff in X. destruct X as [X _]. apply Z.eqb_eq in X.
-    destruct (finish_spec st d s I (Hf d (or_introl eq_refl)) X E) as (I' & Hn & Hfr & _).
-    destruct (IH s st' I' H3) as [I'' Hn'']; [|exact H|split; [exact I''|congruence]].
-    intros x Hx. rewrite Hfr; [apply Hf; now right|]. intros Heq. apply H2. rewrite <- Heq. now apply in_map.
-  - inversion E; subst. apply (IH s st' I H3); auto. intros x Hx. apply Hf. now right.
+  destruct (active_step c d s) as [s2| |] eqn:E2; [|discriminate|discriminate]. cbn [bind] in H.
+  assert (Step : Inv s2 /\ now s2 = now st /\ (forall m, m <> d_name d -> find_dapp m (dapps s2) = find_dapp m (dapps st))).
+  { destruct (expired c (now st) d) eqn:X.
+    - unfold expired in X. apply andb_true_iff in X. destruct X as [X _]. apply Z.eqb_eq in X.
+      destruct (finish_spec st d s I (Hf d (or_introl eq_refl)) X E) as (I' & Hn & Hfr & _).
+      destruct (active_step_spec s d s2 I') as (I2 & N2 & Fr2 & _); [intros; lia|exact E2|].
+      split; [exact I2|]. split; [congruence|]. intros m Hm. rewrite Fr2, Hfr; auto.
+    - inversion E; subst.
+      destruct (active_step_spec s d s2 I) as (I2 & N2 & Fr2 & _); [intros; apply Hf; now left|exact E2|]. auto. }
+  destruct Step as (I2 & N2 & Fr2).
+  destruct (IH s2 st' I2 H3) as [I'' Hn'']; [|exact H|split; [exact I''|congruence]].
+  intros x Hx. rewrite Fr2; [apply Hf; now right|]. intros Heq. apply H2. rewrite <- Heq. now apply in_map.
 Qed.
 
 Lemma Inv_now st t : Inv st -> Inv (mkState t (dapps st) (bonds st) (led st)).
@@ -875,9 +937,9 @@ Qed.
 Definition rU0 : string := "kira1vverqatnv4erqh6lta047h6lta047h6ljxphls".
 Definition rU1 : string := "kira1vverqatnv4erzh6lta047h6lta047h6lhvk0gt".
 Definition rU2 : string := "kira1vverqatnv4eryh6lta047h6lta047h6lcjxwc0".
-Definition rcfg : config := mkConfig 1 10 1000.
+Definition rcfg : config := mkConfig 1 10 1000 2419200 100000000000 100000000000000 1000000000000000.
 Definition rst0 : state := mkState 0 [] [] [(rU0, UKEX, 2000000000); (rU1, UKEX, 2000000000); (rU2, UKEX, 2000000000)].
-Definition rp (lp : string) : dparams := mkParams lp true 500000000000000000 7 11 0 rU2.
+Definition rp (lp : string) : dparams := mkParams lp true 500000000000000000 7 11 0 rU2 100 false.
 
 (* the creation bond is not compared with the maximum *)
 Definition w_max : list op := [OCreate rU0 false false "big" 50000000 (rp "lp/big")].
@@ -914,7 +976,7 @@ Proof. reflexivity. Qed.
 
 (* ConvertDappPoolTx with source = target writes the stale second record: the recorded bond exceeds the balance *)
 Definition w_convert : list op :=
-  [OCreate rU0 false false "x" 1000000 (mkParams "lp/x" true 1000000000000000 0 5000000 0 rU2); OTick 1000;
+  [OCreate rU0 false false "x" 1000000 (mkParams "lp/x" true 1000000000000000 0 5000000 0 rU2 100 false); OTick 1000;
    KSwap rU1 "x" false 1000 0; KConvert rU1 "x" "x" "lp/x" 1].
 Lemma w_convert_ok :
   let st := run as_is rcfg w_convert rst0 in bal MOD UKEX (led st) < sum_totals (dapps st).
@@ -1085,6 +1147,6 @@ End Fixed.
 
 Lemma repaired_fixed : fixed repaired.
 Proof. repeat split. Qed.
-(* the tree after the first three repairs (the conversion repair is independent of these theorems) *)
-Lemma current_fixed : fixed (mkVariant false false false true true).
+(* the tree now: every repair but the one of the upsert proposal handler *)
+Lemma current_fixed : fixed (mkVariant false false false false false true).
 Proof. repeat split. Qed.
